@@ -15,8 +15,9 @@ LEVEL = 'model_checking'
 DESIGN_REF = 'DESIGN.md section 5 / C06'
 TECHNIQUE = ('stateless exploration of the real mechanisms under an owned random environment with lock-step replay on all neighbouring datasets; '
              'relational (two-execution) oracle on the event sequence and the returned data')
-RULE = ('case = (mechanism, parameters, base dataset, decision list, neighbour); same enumeration as C05 (all neighbours; default execution + all executions '
-        'with <= d deviations). states = decision points reached, transitions = environment events compared; non-trivial = every pair (the neighbour '
+RULE = ('case = (mechanism, parameters, base dataset, decision list, second dataset); same enumeration as C05 (all neighbours; default execution + all executions '
+        'with <= d deviations) plus 3-4 datasets far from the base one (one record, uniform x5, all records in one cell, every record shifted): the relation is '
+        'transitive along a chain of neighbours, so it must hold for them as well, and data-dependent branches flip far more readily. states = decision points reached, transitions = environment events compared; non-trivial = every pair (the neighbour '
         'differs from the base dataset by construction); distinct = digest of (case, neighbour).')
 LEVEL_TEXT = ('For every explored execution and every neighbour, the neighbour run is forced to observe the same noisy releases and the same selections; '
               'any difference in the kind, length, scale or candidate count of its random draws, in the arguments of its data-independent draws, or in '
@@ -116,7 +117,7 @@ def run_job(job):
     acc = Acc()
     spec = job['spec']
     n = 0
-    for ctrl, base, results in L.explore_spec(spec, job['ds'], job['sizes'], job['bound'], job['seed'], job['alts'], cap=job.get('cap')):
+    for ctrl, base, results in L.explore_spec(spec, job['ds'], job['sizes'], job['bound'], job['seed'], job['alts'], cap=job.get('cap'), far=True):
         check_exec(acc, job, ctrl, base, results, spec)
         n += 1
     if job.get('cap') and n >= job['cap']:
@@ -130,7 +131,7 @@ def replay(case):
     acc = Acc()
     spec = case['spec']
     job = {'ds': case['ds'], 'sizes': case['sizes'], 'seed': case['seed'], 'alts': case['alts']}
-    for ctrl, base, results in L.explore_spec(spec, case['ds'], case['sizes'], 0, case['seed'], case['alts'], only_prefix=case['prefix']):
+    for ctrl, base, results in L.explore_spec(spec, case['ds'], case['sizes'], 0, case['seed'], case['alts'], only_prefix=case['prefix'], far=True):
         if case.get('nb') is not None:
             results = [r for r in results if json.loads(json.dumps([r[0], r[1]])) == case['nb']]
         check_exec(acc, job, ctrl, base, results, spec)
